@@ -40,6 +40,11 @@ func (proof *Proof) Verify(key []byte, value []byte, root []byte) bool {
 	}
 	hash := leafHash
 	for _, branch := range proof.InnerNodes {
+		// LeafNode and InnerNode share one hash pre-image encoding: a step that claims leaf dimensions would let a
+		// stored leaf (whose key or value is the claimed pair's leaf hash) pass as an inner node of the path
+		if branch == nil || branch.Height < 1 || branch.Size < 2 {
+			return false
+		}
 		//hash = branch.ProofHash(hash)
 		hash = InnerNodeProofHash(hash, branch)
 	}
